@@ -13,7 +13,7 @@ EXPLANATION = (
     "and the buffer is overwritten only when empty; (R4) honest write counts: poll_write returns the length of "
     "the slice that went into the frame, poll_write_vectored the sum of the lengths of exactly the slices pushed.")
 EXPLANATION_ADDED = '(R5) advertised window = inbound queue capacity (=C03.R3/R4); (R6) Connect/Acknowledge cells never replace a live slot (C10 table); (R7) no empty Push reaches the wire (=C05.R1); R2 also requires that a message dequeued from the outbound queue always reaches start_send before the poll function returns.'
-EXPLANATION_ADDED2 = ' (R8) the whole C03 rule set as a precondition of loss-free delivery; (R9) the C09 rules on Push frames.'
+EXPLANATION_ADDED2 = ' (R8) the whole C03 rule set as a precondition of loss-free delivery; (R9) the C09 rules on Push frames. (R11) at teardown the source is dispatched before the flow table is drained and a dispatch error does not end that loop (= C05.R5).'
 EXPLANATION = EXPLANATION + " Added while testing against seeded changes: " + EXPLANATION_ADDED + EXPLANATION_ADDED2
 ASSUMPTIONS = ["tokio channels are FIFO; the WebSocket sink preserves message order"]
 NOT_DECIDED = "that no interleaving corrupts or duplicates bytes (follows from R1-R4 + FIFO, not re-proved)"
@@ -271,6 +271,24 @@ def check(facts, rep, tier, cfg):
         else:
             rep.ok("C02.R10", key, where, "no Pending return is reachable after the Push is queued")
     rep.floor("C02.R10", "write entry points that queue a caller-owned buffer", k10, 2 if "std" in crate.features else 1)
+    # ---- R11 teardown: EOF after the data (= C05.R5)
+    rep.rule("C02.R11", "complete delivery at teardown (= C05.R5): the frames still buffered in the WebSocket source are dispatched before the flow "
+                        "table is drained, and one undispatchable message does not end that loop (a reader that reads to EOF has every byte the peer wrote)")
+    import rules_c08
+    wd11, res11 = rules_c08.teardown_outcomes(facts, crate)
+    if wd11 is None:
+        rep.bad("C02.R11", "wind-down", "", "no function drains the flow table (teardown anchor missing)")
+    else:
+        rep.analysed(wd11)
+        for val, label in ((0, "failure"), (1, "local-drop")):
+            okd, detail = rules_c08.source_dispatch_before_eof(res11.get(val, []))
+            w11 = "%s (%s)" % (loc_str(wd11.loc), wd11.path)
+            if okd and res11.get(val):
+                rep.ok("C02.R11", "source-before-drain/%s" % label, w11, detail)
+            else:
+                rep.bad("C02.R11", "source-before-drain/%s" % label, w11, detail if res11.get(val) else "no terminating teardown path")
+        for okd, wd_, dd in rules_c08.dispatch_not_cut_short(facts, crate):
+            (rep.ok if okd else rep.bad)("C02.R11", "dispatch-survives-errors", wd_, dd)
     rep.rule("C02.S7", "who-may: the functions that touch the critical resources behind this property are those of the reference tree (flow table, closed flag, per-stream / datagram / outbound queues, last-pong timestamp, client id maps, shared TLS identity)")
     import whomay
     whomay.check(facts, rep, "C02.S7", "C02")
